@@ -781,6 +781,35 @@ func c05(c *Ctx) {
 		nm = 6000
 	}
 	memHelperFile(o, NewRNG(c.Seed+555), nm, nil, "MemOps.v")
+	// operand.Imm picks the narrowest unsigned constant type that holds the value: the value must survive
+	for _, x := range []uint64{0, 1, 127, 128, 255, 256, 257, 32767, 32768, 65535, 65536, 65537, 1<<31 - 1, 1 << 31, 1<<32 - 1, 1 << 32, 1<<32 + 1, 1<<63 - 1, 1 << 63, 1<<64 - 1} {
+		var val uint64
+		var size int
+		switch k := operand.Imm(x).(type) {
+		case operand.U8:
+			val, size = uint64(k), 1
+		case operand.U16:
+			val, size = uint64(k), 2
+		case operand.U32:
+			val, size = uint64(k), 4
+		case operand.U64:
+			val, size = uint64(k), 8
+		default:
+			size = -1
+		}
+		wantSize := 8
+		switch {
+		case x < 1<<8:
+			wantSize = 1
+		case x < 1<<16:
+			wantSize = 2
+		case x < 1<<32:
+			wantSize = 4
+		}
+		if val != x || size != wantSize {
+			o.Plan.GoViolations = append(o.Plan.GoViolations, GoViolation{Key: "imm:helper", Desc: fmt.Sprintf("operand.Imm(%d) is the %d-byte constant %d", x, size, val), Replay: map[string]any{"value": x}})
+		}
+	}
 	o.Oblig("Render.names_plain")
 	o.ExpectEmpty("Render.v", "R_render_mismatch", "mismatch", "model of operand rendering (register names, memory references, constants) vs Op.Asm()")
 	o.ExpectEmpty("Render.v", "R_imm_violation", "violation", "a printed constant does not denote the constant's bytes when read as the assembler reads integer literals")
